@@ -770,6 +770,11 @@ func (o Object) MarshalJSON() ([]byte, error) {
 				ArgumentList: []Value{o.value},
 			})
 			result = []byte(resultVal.String())
+			if resultVal.IsUndefined() {
+				// JSON.stringify of a function is undefined: that is not JSON text
+				// (a json.Marshaler must not return it); like Value.MarshalJSON of undefined.
+				result = []byte("null")
+			}
 		})
 		return result, err
 	}
